@@ -7,7 +7,7 @@
    same odd number is the same blank node as a term and as a graph name),
    graph id 0 = the default graph.  [iso A B]: B is A with its blank nodes
    renamed injectively.  [wfd D]: the store lists every graph that holds a triple. *)
-From RV Require Import Routing.Model Routing.Proofs Routing.Relabel Routing.Trix Routing.Patch.
+From RV Require Import Routing.Model Routing.Proofs Routing.Relabel Routing.Trix Routing.Trig Routing.Patch.
 
 (* ---- the comparison used by the specification checker ---- *)
 
@@ -42,22 +42,26 @@ Print Assumptions C06_hext.
 
 (* ---- TriG ---- *)
 
-(* full statement [forall D, wfd D -> iso (d_quads D) (roundtrip Trig D)] is
-   FALSE (finding F19); it holds when no blank-node object is written inline *)
-Theorem C06_trig_routing_partial : forall D, wfd D -> no_inline D -> iso (d_quads D) (roundtrip Trig D).
+(* full strength: every dataset.  A blank-node object with a single reference
+   is written inline as [ ... ] (a brand-new node after parsing); because the
+   graph label counts as a reference such a node occurs nowhere else, so the
+   result is still a renaming of the original. *)
+Theorem C06_trig_routing : forall D, wfd D -> iso (d_quads D) (roundtrip Trig D).
 Proof. exact trig_roundtrip. Qed.
-Print Assumptions C06_trig_routing_partial.
+Print Assumptions C06_trig_routing.
 
 Definition trig_witness : dset :=
   {| d_ctxs := [0; 27]%N; d_quads := [((24, 8, 27), 27)]%N |}.
 
-Theorem C06_trig_routing_refuted :
-  exists D, wfd D /\ ~ iso (d_quads D) (roundtrip Trig D).
+(* the code before the repair of finding F19 (graph label not counted as a
+   reference) did not have the property *)
+Theorem C06_trig_prefix_refuted :
+  exists D, wfd D /\ ~ iso (d_quads D) (parse_doc true (ser_trig_gen false D)).
 Proof.
   exists trig_witness. split; [apply wfdb_spec; vm_compute; reflexivity|].
   intros H. apply isob_complete in H. vm_compute in H. discriminate.
 Qed.
-Print Assumptions C06_trig_routing_refuted.
+Print Assumptions C06_trig_prefix_refuted.
 
 (* ---- TriX ---- *)
 
@@ -114,26 +118,27 @@ Theorem C06_patch_add : forall D, wfd D -> qseteq (roundtrip PatchAdd D) (d_quad
 Proof. exact patch_add_roundtrip. Qed.
 Print Assumptions C06_patch_add.
 
-(* full statement [apply (diff S T) S = T for all S T] is FALSE (finding F18:
-   an empty target is falsy); it holds for every pair with a non-empty target *)
-Theorem C06_patch_diff_apply_partial : forall S T, wfd S -> wfd T -> isnil (d_quads T) = false ->
+(* full strength: every pair of datasets, empty target included *)
+Theorem C06_patch_diff_apply : forall S T,
   qseteq (apply_patch (ser_patch_diff S T) (d_quads S)) (d_quads T).
 Proof. exact patch_diff_apply. Qed.
-Print Assumptions C06_patch_diff_apply_partial.
+Print Assumptions C06_patch_diff_apply.
 
-Theorem C06_patch_diff_apply_refuted :
-  exists S T, wfd S /\ wfd T /\ ~ qseteq (apply_patch (ser_patch_diff S T) (d_quads S)) (d_quads T).
+(* the code before the repair of finding F18 (target tested by truthiness)
+   did not have the property *)
+Theorem C06_patch_diff_prefix_refuted :
+  exists S T, wfd S /\ wfd T /\ ~ qseteq (apply_patch (ser_patch_diff_prefix S T) (d_quads S)) (d_quads T).
 Proof.
   exists {| d_ctxs := [0%N]; d_quads := [((2, 6, 4), 0)]%N |}, {| d_ctxs := [0%N]; d_quads := [] |}.
   split; [apply wfdb_spec; vm_compute; reflexivity|]. split; [apply wfdb_spec; vm_compute; reflexivity|].
   intros H. apply qseteqb_spec in H. vm_compute in H. discriminate.
 Qed.
-Print Assumptions C06_patch_diff_apply_refuted.
+Print Assumptions C06_patch_diff_prefix_refuted.
 
 (* ---- model and checker ---- *)
 
 (* What the correspondence check evaluates on the implementation's answers is
-   satisfied by the model on every case outside the four known findings. *)
+   satisfied by the model on every case outside the two open findings (F8b, F17). *)
 Theorem C06_spec_ok_model : forall c, wf c -> kf c = 0%N -> spec_ok c (model_obs c) = true.
 Proof. exact spec_ok_model. Qed.
 Print Assumptions C06_spec_ok_model.
